@@ -53,4 +53,5 @@ func HarnessC01ImageAttrs() {
 		vx.Cover("image")
 		e.GenerateOutput(false)
 	}
+	vx.Assert(true, "end of the harness reached (this harness only looks for panics; the assertion exists for the canary run)")
 }
